@@ -1,3 +1,1 @@
-# properties not (yet) claimed by a check; entries disappear as checks are registered
-for _p in ["C18","C19","C20"]:
-    NA[_p] = "check under construction in this round: no static rule registered yet (see DESIGN.md §5 for the planned structural clauses)"
+# every property is claimed (level "other": structural clauses only; see each claim's text for what is NOT decided)
